@@ -8,7 +8,7 @@ import vlib
 def run(ctx):
     quick = ctx.quick
     vlib.tlc_model(ctx, "NegNeeded", "NegNeeded_MC", workers=8)
-    nwalk = 300 if quick else 6000
+    nwalk = 300 if quick else 3000
     sim = vlib.run_tlc(ctx, "NegNeeded", "NegNeeded_Sim", workers=1, simulate="num=%d" % (3 * nwalk), depth=11, timeout=900)
     if sim.rc != 0:
         raise vlib.NoVerdict("simulation failed: %s" % sim.error)
